@@ -274,6 +274,9 @@ pub fn diff_modules(real: &Sexp, model: &Sexp) -> Vec<String> {
 /// Full IR comparison of a real outcome with the model's reply.
 pub fn compare_outcome(real: &RealOutcome, model: &Sexp) -> Result<(), Vec<String>> {
     let mk = model.head().unwrap_or("?");
+    if mk == "nomodel" {
+        return Ok(());
+    }
     match real {
         RealOutcome::Ok(tokens) => {
             if mk != "ok" {
